@@ -1,22 +1,27 @@
 #!/bin/bash
-# run.sh <quick|thorough>   C18: rewrite the CURRENT chain/queue.go through c18/ovgen,
-# build the model checker against it and run it.
-# C18_QUEUE_SRC=<file> points the generator at another queue.go (used to show detection).
+# run.sh <quick|thorough>   C18: rewrite the CURRENT chain/queue.go and extract the
+# notification handler loops of chain/neutrino.go and chain/btcd.go through c18/ovgen,
+# build the model checker against them and run it.
+# C18_QUEUE_SRC / C18_NEUTRINO_SRC / C18_BTCD_SRC=<file> point the generator at another
+# copy of queue.go / neutrino.go / btcd.go (used to show detection).
 # exit: 0 held, 1 violation, 2 generator/build/harness error
 set -u
 export GOFLAGS=-mod=mod GOPROXY=off GOSUMDB=off GOTOOLCHAIN=local
 export GOCACHE=/verif/.cache/go-build
 tier="${1:-${VERIF_TIER:-quick}}"
 src="${C18_QUEUE_SRC:-/repo/chain/queue.go}"
+nsrc="${C18_NEUTRINO_SRC:-/repo/chain/neutrino.go}"
+bsrc="${C18_BTCD_SRC:-/repo/chain/btcd.go}"
 ov=/verif/.cache/ov/c18
-mkdir -p "$ov/queue" /verif/bin /verif/evidence /verif/replays || exit 2
+mkdir -p "$ov" /verif/bin /verif/evidence /verif/replays || exit 2
 cd /verif/harness || exit 2
 fail() { echo "HARNESS-ERROR: c18: $*" >&2; exit 2; }
 (
   flock 9
   go build -o "$ov/ovgen" ./c18/ovgen 2>"$ov/build.err" || { cat "$ov/build.err" >&2; exit 2; }
-  "$ov/ovgen" -src "$src" -out "$ov/queue/queue.go" -overlay "$ov/overlay.json" \
-      -virtual /verif/harness/c18/queue/queue.go || exit 2
+  rm -rf "$ov/queue" "$ov/hneutrino" "$ov/hbtcd" "$ov/overlay.json"
+  "$ov/ovgen" -src "$src" -neutrino-src "$nsrc" -btcd-src "$bsrc" -pkgdir /repo/chain \
+      -outdir "$ov" -overlay "$ov/overlay.json" -virtual /verif/harness/c18 || exit 2
   go build -tags "verif c18ov" -overlay "$ov/overlay.json" -o "$ov/vh-c18.new" ./c18/cmd 2>"$ov/build.err" \
       || { echo "HARNESS-ERROR: c18: build of the rewritten queue.go failed (a tree that does not compile is not a property verdict)" >&2; cat "$ov/build.err" >&2; exit 2; }
   mv -f "$ov/vh-c18.new" /verif/bin/vh-c18 || exit 2
